@@ -815,7 +815,7 @@ def run(ctx: Ctx) -> Result:
         run_iter_cases(it_corpus, res)
     import time
     now = time.time()
-    budget = max(5.0, min(38.0 if ctx.tier == "quick" else 600.0, ctx.time_left() - 8.0))
+    budget = max(5.0, min(30.0 if ctx.tier == "quick" else 480.0, ctx.time_left() - 16.0))
     focus_tee = isinstance(ctx.focus, dict) and "tee" in ctx.focus
     if focus_tee:
         run_tee(ctx, res, tee_corpus, now + 0.6 * budget)
@@ -826,6 +826,17 @@ def run(ctx: Ctx) -> Result:
     run_odd_equality(res)
     run_partial_callbacks(res)
     run_cancel_retry(res)
+    # tee under cancellation: its own model (Iter/TeeCancel.lean), trace validation and oracle
+    from . import c19_teecancel
+
+    tc = c19_teecancel.run(ctx, budget_s=7.0 if ctx.tier == "quick" else 120.0)
+    res.violations += tc.violations
+    res.disagreements += tc.disagreements
+    res.evaluations += tc.evaluations
+    res.traces_validated += tc.traces_validated
+    res.nontrivial |= {("teecancel", x) for x in tc.nontrivial}
+    res.stats["teecancel"] = tc.stats
+    res.samples += tc.samples[:1]
     # the smallest failing input of every kind first (check_main reports one per signature)
     res.violations.sort(key=lambda v: len(repr(v.case)))
     res.disagreements.sort(key=lambda d: len(repr(d.case)))
@@ -834,6 +845,10 @@ def run(ctx: Ctx) -> Result:
 
 def replay(ctx: Ctx, case: Any) -> Result:
     res = Result(rule="replay")
+    if isinstance(case, dict) and "teecancel" in case:
+        from . import c19_teecancel
+
+        return c19_teecancel.replay(ctx, case)
     if isinstance(case, dict) and ("tee" in case or "tee_args" in case):
         replay_tee(case, res)
     elif isinstance(case, dict) and "tee_cancel_retry" in case:
@@ -852,10 +867,12 @@ if __name__ == "__main__":
     from .common import check_main
 
     sys.exit(check_main(
-        "C19", run, replay=replay, models=["iter", "tee"],
+        "C19", run, replay=replay, models=["iter", "tee", "teecancel"],
         technique_note="Lean 4 theorems impl_f = spec_f for all inputs (induction) + three-way "
                        "differential check anyio / CPython itertools / Lean impl_f, spec_f; tee: LTS "
-                       "theorems over all event lists + trace validation of the real tee",
+                       "theorems over all event lists + trace validation of the real tee; tee under "
+                       "cancellation: a second LTS (every suspension point cancellable or shielded as in the "
+                       "code) with no-loss / source-once / lock-free theorems + trace validation",
         assumptions=["CPython's itertools.combinations/combinations_with_replacement/permutations/"
                      "product are trusted (AnyIO delegates to them after collecting the pools)",
                      "callbacks are pure and total; nobody cancels during the iteration",
